@@ -11,11 +11,19 @@ Proof. exact parse_single_range_sound. Qed.
 Print Assumptions C15_range_limit.
 
 (* a range larger than the limit is refused however large the numbers typed; with the
-   'too many hosts' error whenever the lower bound is a representable number *)
+   'too many hosts' error whenever the lower bound leaves room for MAX_RANGE representable
+   numbers above it *)
+(* CHANGED BY PROOF: the original second conjunct
+     (value a < ULONG - 1 -> parse_single_range (a ++ 45 :: b) = Err ERANGE)
+   is false for the model.  Counterexample: a = "18446744073709551614" (ULONG-2),
+   b = "18446744073709651616" (ULONG+100000): every hypothesis holds and value a < ULONG - 1,
+   but the upper bound saturates to ULONG-1, hi - lo = 1 < MAX_RANGE, and the reserved-value
+   check answers Err EINVAL (see C15_too_many_counterexample below).  The refusal is ERANGE
+   exactly when value a + MAX_RANGE < ULONG. *)
 Theorem C15_too_many : forall a b, a <> [] -> b <> [] -> forallb is_digit a = true -> forallb is_digit b = true ->
   value a <= value b -> MAX_RANGE <= value b - value a ->
   (exists e, parse_single_range (a ++ 45 :: b) = Err e) /\
-  (value a < ULONG - 1 -> parse_single_range (a ++ 45 :: b) = Err ERANGE).
+  (value a + MAX_RANGE < ULONG -> parse_single_range (a ++ 45 :: b) = Err ERANGE).
 Proof. exact parse_too_many. Qed.
 Print Assumptions C15_too_many.
 
@@ -57,6 +65,14 @@ Theorem C15_size_bound : forall s h, create s = Ok h ->
   N.of_nat (length (expand (ranges h))) = Z.to_N (nhosts h).
 Proof. exact create_size_bound. Qed.
 Print Assumptions C15_size_bound.
+
+(* the input that refutes the original wording of C15_too_many *)
+Example C15_too_many_counterexample :
+  let a := [49;56;52;52;54;55;52;52;48;55;51;55;48;57;53;53;49;54;49;52] in
+  let b := [49;56;52;52;54;55;52;52;48;55;51;55;48;57;54;53;49;54;49;54] in
+  value a = ULONG - 2 /\ value b = ULONG + 100000 /\
+  parse_single_range (a ++ 45 :: b) = Err EINVAL.
+Proof. repeat split; vm_compute; reflexivity. Qed.
 
 Example C15_nonvacuous :
   parse_single_range [48;45;49;56;52;52;54;55;52;52;48;55;51;55;48;57;53;53;49;54;49;53] = Err ERANGE /\
